@@ -4,8 +4,8 @@
      - QUICTransportParametersExtension keeps marshalResult, the encoding made by
        its first Len() (u_tls_extensions.go:1346-1350, Read goes through Len()):
        later edits of TransportParameters are not served;
-     - UtlsPreSharedKeyExtension keeps *cachedLength: already a field of its
-       constructor (EUtlsPreSharedKey _ cached ..), read back by the harness;
+     - UtlsPreSharedKeyExtension kept *cachedLength until fix C08-psk-len-after-edit;
+       it now recomputes its length, like every other type, from its current fields;
      - GREASEEncryptedClientHelloExtension keeps cipherSuite/configId/payload of
        init(): EGREASEECH is that state, EncapsulatedKey stays a live field.
    Executable definitions only. *)
